@@ -295,3 +295,123 @@ func genRetargetTree(r *rand.Rand, ps *ParamSpec, now0 int64) *Tree {
 	t.rtg = info
 	return t
 }
+
+func (t *Tree) growDt(r *rand.Rand, from *Node, l int, dt int64, now0 int64) *Node {
+	c0 := from
+	for i := 0; i < l; i++ {
+		c0 = t.mine(r, c0, dt, "", now0)
+	}
+	return c0
+}
+
+// genStaleCtxTree: see staleCtxInfo. No retargeting: work = number of headers.
+func genStaleCtxTree(r *rand.Rand, ps *ParamSpec, now0 int64) *Tree {
+	ps.NoRetarget = true
+	t := newTree(mkParams(*ps, nil))
+	m := 12 + r.Intn(5)
+	cur := t.Nodes[0]
+	for i := 0; i < m; i++ {
+		cur = t.mine(r, cur, 300+int64(r.Intn(300)), "", now0)
+		t.main = append(t.main, cur)
+	}
+	info := &staleCtxInfo{low: r.Intn(2) == 0, fork: cur}
+	a := 8 + r.Intn(3)                 // headers of A
+	wide := int64(4000 + r.Intn(3000)) // many median windows of the narrow branch
+	narrow := int64(1 + r.Intn(3))
+	aDt, xDt := wide, narrow
+	if !info.low {
+		aDt, xDt = narrow, wide
+	}
+	var aNodes []*Node
+	c0 := cur
+	for i := 0; i < a; i++ {
+		c0 = t.mine(r, c0, aDt, "", now0)
+		aNodes = append(aNodes, c0)
+		t.main = append(t.main, c0)
+	}
+	info.aTip = c0
+	xl := a
+	if r.Intn(3) == 0 {
+		xl = a - 1 // lighter instead of a tie
+	}
+	info.xTip = t.growDt(r, cur, xl, xDt, now0)
+	// Y forks at A_j (1-based), 6 <= j <= min(a, xl) - 1: X covers that height
+	top := xl
+	j := 6 + r.Intn(top-6)
+	info.yFork = aNodes[j-1]
+	ft := info.fork.Hdr.Timestamp.Unix()
+	if info.low {
+		// true median = A_(j-5) >= fork + wide; X's headers end at
+		// fork + xl*narrow: in between, NOT after the true median
+		t.forceTime = ft + wide/2
+	} else {
+		// true median ~ fork + j*narrow; X's headers run up to
+		// fork + xl*wide: after the true median, far below X's median
+		t.forceTime = info.yFork.Hdr.Timestamp.Unix() + 5 + int64(r.Intn(20))
+	}
+	y1 := t.mine(r, info.yFork, 0, "", now0)
+	if info.low {
+		y1.Corrupt = "time-old"
+	}
+	info.yTip = t.growDt(r, y1, a-j+r.Intn(2), 5+int64(r.Intn(10)), now0) // a-j+1 .. a-j+2 headers against a-j
+	// every timestamp of the tree must be acceptable to the clock
+	mx := int64(0)
+	for _, n := range t.Nodes {
+		if u := n.Hdr.Timestamp.Unix(); u > mx {
+			mx = u
+		}
+	}
+	info.nowBig = mx + 60
+	t.stale = info
+	return t
+}
+
+// genShortHeavyTree: see shortHeavyInfo. Retargeting on, min-difficulty off.
+func genShortHeavyTree(r *rand.Rand, ps *ParamSpec, now0 int64) *Tree {
+	ps.NoRetarget, ps.ReduceMin, ps.Bip94 = false, false, false
+	if ps.Bpr < 4 {
+		ps.Bpr = 4
+	}
+	t := newTree(mkParams(*ps, nil))
+	b := int(t.bpr)
+	cur := t.Nodes[0]
+	add := func(dt int64) {
+		cur = t.mine(r, cur, dt, "", now0)
+		t.main = append(t.main, cur)
+	}
+	info := &shortHeavyInfo{maxSide: r.Intn(2) == 0}
+	pace := int64(10) // the target spacing: a period at this pace leaves the difficulty alone
+	R := b            // the retarget height the two branches cross
+	if info.maxSide {
+		// two fast periods first: the difficulty is 16 times the minimum
+		for len(t.main) < 2*b-1 {
+			add(1)
+		}
+		add(1)
+		R = 3 * b
+	}
+	// the fork point is the first or second block of the period before R
+	for len(t.main) < R-b+1+r.Intn(2) {
+		add(pace)
+	}
+	info.fork = cur
+	f := len(t.main)
+	x := 4 + r.Intn(3)           // A's headers after the retarget
+	y := 2                       // B's: 4*y > x, y < x
+	aPre, bPre := pace, int64(1) // min side: B's period is far shorter than timespan/4: 4 times harder
+	if info.maxSide {
+		// A's period is far longer than timespan*4: 4 times easier; B's is on pace
+		aPre, bPre = int64(40*b/(b-1))*2, pace
+	}
+	for len(t.main) < R-1 {
+		add(aPre)
+	}
+	for i := 0; i < x; i++ {
+		add(pace)
+	}
+	info.aTip = cur
+	bp := t.growDt(r, info.fork, R-1-f, bPre, now0)
+	info.bTip = t.growDt(r, bp, y, pace, now0)
+	t.shv = info
+	return t
+}
